@@ -66,12 +66,22 @@ func (r *Reader) Header() (t plumbing.ObjectType, size int64, err error) {
 	if err != nil {
 		return t, size, err
 	}
+	// A loose object is never a delta: canonical Git knows only commit,
+	// tree, blob and tag here and dies with "invalid object type".
+	if t.IsDelta() {
+		return t, size, plumbing.ErrInvalidType
+	}
 
 	raw, _, err = r.readUntil(0, budget)
 	if err != nil {
 		return t, size, err
 	}
 
+	// The size is an unsigned decimal number, as in canonical Git's
+	// parse_loose_header: strconv.ParseInt alone would also take a sign.
+	if len(raw) == 0 || raw[0] < '0' || raw[0] > '9' {
+		return t, size, ErrHeader
+	}
 	size, err = strconv.ParseInt(string(raw), 10, 64)
 	if err != nil {
 		err = ErrHeader
